@@ -390,7 +390,8 @@ Spec == Init /\ [][Next]_vars /\ WF_vars(Next)
 
 ---------------------------------------------------------------------------
 (* properties: history predicates from ActorProps + a few over model state *)
-Quiet == \A a \in Actors : ex[a].pc = "none"
+(* nothing is parked at a gate and nothing can move by itself: every actor is idle or blocked (possibly for ever) *)
+Quiet == \A a \in Actors : ~AtGate(a) /\ ~InternalEnabled(a)
 
 C02_NoOverlap   == ~overlap
 C04_Lifecycle   == P!Lifecycle(log)
@@ -398,7 +399,7 @@ C04_SpawnRet    == \A a \in spret : (\E i \in 1..Len(log) : log[i].a = a /\ log[
 C05_AtMostOnce  == P!AtMostOnce(log)
 C05_InOrder     == P!InOrder(log)
 C05_Numbered    == P!RestartsNumbered(events)
-C05_Complete    == Quiet => \A a \in Actors : reg[a] => \A k \in accepted[a] : P!Handled(log, a, k)
+C05_Complete    == Quiet => \A a \in Actors : (reg[a] /\ P!NotStopping(issued, events, a)) => \A k \in accepted[a] : P!Handled(log, a, k)
 C06_Alive       == ~dead
 C06_Bounded     == P!RestartsBounded(events) /\ \A a \in Actors : restarts[a] <= MaxRestarts[a]
 C06_Clean       == Quiet => \A a \in Actors : P!Exhausted(events, a) => (~reg[a] /\ \A d \in P!Desc(a) : ~reg[d])
